@@ -371,7 +371,7 @@ def gen_scenarios(seed, n, steps, profile, role="both", snap=True):
     return load_scenarios(out)
 
 
-def correspond_sendflow(rep, tier, seed, profiles=("flow", "bp", "mixed", "starve", "bp", "reset", "limits")):
+def correspond_sendflow(rep, tier, seed, profiles=("flow", "bp", "mixed", "starve", "bp", "reset", "limits", "lastframe", "starvedrop")):
     per = 50 if tier == "quick" else 1500
     steps = 100 if tier == "quick" else 140
     all_cases, all_scs, label_hist = [], [], {}
